@@ -24,7 +24,7 @@ func init() {
 		Level: "proof",
 		Funcs: []string{"tcell.Color.Valid", "tcell.Color.IsRGB", "tcell.Color.Hex", "tcell.Color.RGB", "tcell.Color.TrueColor",
 			"tcell.NewHexColor", "tcell.NewRGBColor", "tcell.PaletteColor", "tcell.FindColor"},
-		Custom: []func(*PropRun){c16Tables, c16StringRoundTrip},
+		Custom: []func(*PropRun){c16Tables, c16StringRoundTrip, c16FindColorNative},
 		Bounded: []string{"ColorStrings/css-getcolor-image-roundtrip: CSS/GetColor/FromImageColor go through fmt, strconv and image/color; native enumeration (quick: lattice with step 5 plus boundary values; thorough: all 2^24 RGB values) - not a proof"},
 		Trusted: []string{"go-colorful DistanceCIE76 is a deterministic total function and is CIE76 delta-E (assumed contract cie76)",
 			"spec/std/css_colors.txt (W3C named colours, transcribed from x/image/colornames) and the xterm-256 formula in govc/props.go"},
@@ -83,7 +83,7 @@ func init() {
 		ID:     "C17",
 		Level:  "proof",
 		Funcs:  []string{"tcell.(*tScreen).encodeRune", "tcell.(*tScreen).CanDisplay"},
-		Custom: []func(*PropRun){c17AcsMaps},
+		Custom: []func(*PropRun){c17AcsMaps, c17Charsets},
 		Trusted: []string{"transform.Transformer.Transform writes only into dst and returns counts within bounds (assumed interface contract); which bytes a given charset encoder produces is not modelled",
 			"the encoder is deterministic, so encodeRune and CanDisplay see the same answer for the same rune (agreement of the two contracts rests on this)"},
 		Assume: []string{"a non-UTF-8 locale (t.encoder != nil)"},
@@ -329,6 +329,72 @@ func c16StringRoundTrip(run *PropRun) {
 		fmt.Sprintf("CSS() is '#RRGGBB' of Hex(), GetColor(CSS()) and FromImageColor round-trip, invalid colours give \"\" (native enumeration on the real code, component step %d): %s", step, detail))
 	g.ReplayGo = src
 	run.Extra["colour_string_enumeration_component_step_bounded"] = step
+}
+
+// c16FindColorNative: BOUNDED stand-in next to the FindColor proof, for what the contract cannot see when FindColor's
+// body leaves the verifier's subset (caches, maps of interfaces ...): the real FindColor is run natively on an RGB
+// lattice against the 8-, 16- and 256-entry palettes and against pairs of DIFFERENT palettes of the same length in
+// turn (so that an answer remembered from one palette is noticed in the other); the result must be a member of the
+// palette given and no member may be strictly closer in go-colorful's CIE76 distance.
+func c16FindColorNative(run *PropRun) {
+	src := replayTest("tcell", []string{"github.com/lucasb-eyer/go-colorful"}, `
+	dist := func(a, b Color) float64 {
+		ar, ag, ab := a.RGB()
+		br, bg, bb := b.RGB()
+		c1 := colorful.Color{R: float64(ar) / 255.0, G: float64(ag) / 255.0, B: float64(ab) / 255.0}
+		c2 := colorful.Color{R: float64(br) / 255.0, G: float64(bg) / 255.0, B: float64(bb) / 255.0}
+		return c1.DistanceCIE76(c2)
+	}
+	var pals [][]Color
+	for _, n := range []int{8, 16, 256} {
+		var p []Color
+		for i := 0; i < n; i++ { p = append(p, PaletteColor(i)) }
+		pals = append(pals, p)
+	}
+	// different palettes of equal length, queried in turn
+	pals = append(pals, []Color{ColorRed, ColorGreen, ColorBlue, ColorWhite, ColorBlack, ColorYellow, ColorAqua, ColorFuchsia},
+		[]Color{ColorMaroon, ColorOlive, ColorNavy, ColorSilver, ColorGray, ColorTeal, ColorPurple, ColorLime},
+		[]Color{NewRGBColor(10, 20, 30), NewRGBColor(200, 100, 50), NewRGBColor(0, 255, 128), NewRGBColor(90, 90, 90), NewRGBColor(255, 255, 0), NewRGBColor(1, 2, 3), NewRGBColor(250, 250, 250), NewRGBColor(128, 0, 255)})
+	n := 0
+	for rep := 0; rep < 2; rep++ {
+		for r := int32(0); r < 256; r += 51 {
+			for g := int32(0); g < 256; g += 51 {
+				for b := int32(0); b < 256; b += 51 {
+					c := NewRGBColor(r, g, b)
+					for pi, pal := range pals {
+						got := FindColor(c, pal)
+						member := false
+						for _, m := range pal { if m == got { member = true } }
+						if !member { fmt.Printf("FINDCOLOR FAIL FindColor(#%06X, palette %d) = %v is not a member of that palette\n", c.Hex(), pi, got); fail("not a member"); return }
+						dg := dist(c, got)
+						for _, m := range pal {
+							if dist(c, m) < dg-1e-12 { fmt.Printf("FINDCOLOR FAIL FindColor(#%06X, palette %d) = #%06X at %.6f but #%06X is closer (%.6f)\n", c.Hex(), pi, got.Hex(), dg, m.Hex(), dist(c, m)); fail("not optimal"); return }
+						}
+						n++
+					}
+				}
+			}
+		}
+	}
+	fmt.Printf("FINDCOLOR OK %d\n", n)`)
+	out, err := runOverlayTest(run.Eng.Repo, run.Eng.Repo, src, 300*time.Second, nil)
+	ok, detail := false, ""
+	for _, ln := range strings.Split(out, "\n") {
+		if strings.HasPrefix(ln, "FINDCOLOR OK ") {
+			ok = true
+			detail = strings.TrimPrefix(ln, "FINDCOLOR OK ") + " queries"
+		}
+		if strings.HasPrefix(ln, "FINDCOLOR FAIL ") && detail == "" {
+			detail = strings.TrimPrefix(ln, "FINDCOLOR FAIL ")
+		}
+	}
+	if !ok && detail == "" {
+		run.Errors = append(run.Errors, fmt.Sprintf("native FindColor sample did not run: %v %s", err, tail(out, 400)))
+		return
+	}
+	g := run.AddObligation("tcell.FindColor/native-sample-member-and-optimal", "table-bounded", BoolT(ok),
+		"the real FindColor, run natively on an RGB lattice against the standard palettes and against different palettes of equal length in turn, returns a member of the palette it was given and no member is strictly closer: "+detail)
+	g.ReplayGo = src
 }
 
 func c16Tables(run *PropRun) {
